@@ -334,11 +334,13 @@ class SchemaBuilder(
         dependent_required = self._dependent_required(cls, fields)
         result = []
         if discriminator_parent := get_discriminated_parent(cls):
-            discriminator_ref = self.ref_schema(
-                get_type_name(discriminator_parent).json_schema
-            )
-            assert discriminator_ref is not None
-            result.append(discriminator_ref)
+            # the parent is referenced by its children, not by itself
+            if discriminator_parent is not cls:
+                discriminator_ref = self.ref_schema(
+                    get_type_name(discriminator_parent).json_schema
+                )
+                assert discriminator_ref is not None
+                result.append(discriminator_ref)
             additional_properties = True
         result.append(
             json_schema(
